@@ -197,6 +197,10 @@ class SymtableCodeGen(AbstractCodeGen):
         for sym in regedSyms:
             self._postponedSyms.pop(sym)
 
+        # newly registered symbols may be the parents other postponed ones wait for
+        if regedSyms:
+            self.regPostponedSyms()
+
         # Clause handlers
 
     # noinspection PyUnusedLocal
